@@ -104,12 +104,12 @@ class Outcome(object):
         self.args = args
 
 
-def check_call(qual, contract, args, vocab=None):
+def check_call(qual, contract, args, vocab=None, fn=None):
     """args: dict param -> python value (will be mutated by the real call)."""
     env = dict(VOCAB)
     if vocab:
         env.update(vocab)
-    fn = real_function(qual)
+    fn = fn or real_function(qual)
     names = list(args)
     try:
         for r in contract.get("requires", []) + contract.get("assume", []):
@@ -136,7 +136,9 @@ def check_call(qual, contract, args, vocab=None):
     except Exception as e:
         if allowed != "nothing" and type(e).__name__ in allowed:
             return Outcome("ok")
-        return Outcome("raised", "%s: %s" % (type(e).__name__, e), shown)
+        o = Outcome("raised", "%s: %s" % (type(e).__name__, e), shown)
+        o.exc = e
+        return o
     for (code, olds), ov, src in zip(ens, oldvals, contract.get("ensures", [])):
         loc = dict(args)
         loc.update(ov)
